@@ -186,6 +186,32 @@ Proof.
 Qed.
 
 
+(* ---------- shared leaves ---------- *)
+(* SD c l: a leaf id that occurs in two different segments of l has no lookups left in state c
+   (a shared ACL object is tolerated when it is synchronous) *)
+Definition SD (c : st) (l : list N) : Prop :=
+  forall l1 l2 j, l = l1 ++ l2 -> In j l1 -> In j l2 -> lrem c j = [].
+
+Lemma SD_app_l c a b : SD c (a ++ b) -> SD c a.
+Proof. intros H l1 l2 j E H1 H2. apply (H l1 (l2 ++ b) j); [rewrite E, app_assoc; reflexivity| exact H1| apply in_or_app; left; exact H2]. Qed.
+Lemma SD_app_r c a b : SD c (a ++ b) -> SD c b.
+Proof. intros H l1 l2 j E H1 H2. apply (H (a ++ l1) l2 j); [rewrite E, app_assoc; reflexivity| apply in_or_app; right; exact H1| exact H2]. Qed.
+Lemma SD_app_both c a b j : SD c (a ++ b) -> In j a -> In j b -> lrem c j = [].
+Proof. intros H H1 H2. exact (H a b j eq_refl H1 H2). Qed.
+Lemma SD_mono c c' l : SD c l -> (forall j, (length (lrem c' j) <= length (lrem c j))%nat) -> SD c' l.
+Proof.
+  intros H LE l1 l2 j E H1 H2. specialize (H l1 l2 j E H1 H2). specialize (LE j). rewrite H in LE.
+  destruct (lrem c' j); [reflexivity| cbn in LE; lia].
+Qed.
+Lemma SD_lrem c c' l : lrem c' = lrem c -> SD c l -> SD c' l.
+Proof. intros E H l1 l2 j E1 H1 H2. rewrite E. exact (H l1 l2 j E1 H1 H2). Qed.
+Lemma NoDup_SD c l : NoDup l -> SD c l.
+Proof.
+  intros ND l1 l2 j E H1 H2. exfalso. subst l. revert H2. clear -ND H1.
+  induction l1 as [|x l1 IH]; [destruct H1|]. cbn [app] in ND. inversion ND as [|x' l' NI ND']; subst. intros HJ.
+  destruct H1 as [->|H1]; [apply NI, in_or_app; right; exact HJ| exact (IH ND' H1 HJ)].
+Qed.
+
 (* ---------- invariants ---------- *)
 Section Proofs.
 Variable scr : N -> lscript.
@@ -363,7 +389,7 @@ Definition npre (x : node) (pi : list N) (c : st) : Prop :=
   quiet c /\ depth c = 0 /\ (exists loc, matchLoc c = Some loc) /\ vpath pi x /\ path c = tailcrumbs pi x.
 
 Definition run_ok (x : node) : Prop :=
-  NoDup (leaf_ids x) -> forall pi c r c', npre x pi c ->
+  forall pi c r c', SD c (leaf_ids x) -> npre x pi c ->
   node_run scr x (startof pi) c = (r, c') -> gpost (leaf_ids x) x (evalp (lv c) pi x) c r c'.
 
 Definition mcpre (x : node) (pi : list N) (c : st) : Prop :=
@@ -381,7 +407,7 @@ Proof. intros (j & rest & A & B & C) I. exists j, rest. auto. Qed.
 (* a leaf *)
 Lemma leaf_ok i : run_ok (Leaf i).
 Proof.
-  intros _ pi c r c' (Q & D0 & (loc & ML) & VP & PT) E.
+  intros pi c r c' _ (Q & D0 & (loc & ML) & VP & PT) E.
   destruct pi as [|p pi]; [|destruct VP].
   cbn [startof node_run] in E. unfold leaf_matches in E.
   destruct (leaf_loop i (scr i) (lrem (set_trace (i :: trace c) (set_lastName (Some i) c)) i)
@@ -406,7 +432,7 @@ Qed.
 
 (* ACLChecklist::matchChild over a child that behaves *)
 Lemma matchChild_ok cur idx x pi c r c' :
-  run_ok x -> NoDup (leaf_ids x) -> mcpre x pi c ->
+  run_ok x -> SD c (leaf_ids x) -> mcpre x pi c ->
   matchChild cur idx (node_id x) (node_run scr x) c = (r, c') ->
   mcpost cur idx x (evalp (lv c) pi x) c r c'.
 Proof.
@@ -421,7 +447,7 @@ Proof.
   { destruct pi as [|q pit].
     - cbn [crumbs] in PT. replace (path c1) with (@nil crumb) in E by (unfold c1; stg; congruence).
       destruct (node_run scr x None c1) as [r2 c2] eqn:ER. exists r2, c2. split; [congruence|].
-      rewrite <- EV. apply (OK ND [] c1 r2 c2); [|exact ER].
+      rewrite <- EV. apply (OK [] c1 r2 c2); [exact ND| |exact ER].
       split; [exact Q'|]. split; [reflexivity|]. split; [eexists; reflexivity|]. split; [exact I|].
       unfold c1; stg. cbn [tailcrumbs]. congruence.
     - destruct x as [i|i k cs]; [destruct VP|]. cbn [vpath crumbs] in VP, PT.
@@ -431,7 +457,7 @@ Proof.
       destruct (node_run scr (Inner i k cs) (Some q) (set_path (crumbs pit y) c1)) as [r2 c2] eqn:ER.
       exists r2, c2. split; [congruence|].
       rewrite <- EV.
-      assert (G := OK ND (q :: pit) (set_path (crumbs pit y) c1) r2 c2).
+      assert (G := OK (q :: pit) (set_path (crumbs pit y) c1) r2 c2 ND).
       cbn [startof] in G.
       assert (PRE : npre (Inner i k cs) (q :: pit) (set_path (crumbs pit y) c1)).
       { split; [unfold quiet, c1; stg; auto|]. split; [reflexivity|]. split; [eexists; reflexivity|].
@@ -494,11 +520,19 @@ Proof. intros A. unfold keepMatching, asyncInProgress. rewrite A. cbn. apply and
 
 (* values of later siblings are not disturbed by matching x *)
 Lemma frame_lv x l c c1 :
-  NoDup (leaf_ids x ++ flat_map leaf_ids l) -> inv (leaf_ids x) c c1 ->
+  SD c (leaf_ids x ++ flat_map leaf_ids l) -> inv (leaf_ids x) c c1 ->
   forall j, In j (flat_map leaf_ids l) -> lv c1 j = lv c j.
 Proof.
-  intros ND IV j Hj. eapply inv_lv; [exact IV|]. intros C. exact (NoDup_app_disj _ _ ND j C Hj).
+  intros ND IV j Hj. destruct (in_dec N.eq_dec j (leaf_ids x)) as [C|C].
+  - (* a shared leaf: it has no lookups left, so matching x did not change it *)
+    pose proof (SD_app_both _ _ _ _ ND C Hj) as E0.
+    destruct IV as (_ & _ & A3 & _ & _ & _ & A7). apply lv_same; [exact A3|].
+    specialize (A7 j). rewrite E0 in A7 |- *. destruct (lrem c1 j); [reflexivity| cbn in A7; lia].
+  - eapply inv_lv; [exact IV| exact C].
 Qed.
+
+Lemma SD_after x l c c1 : SD c (leaf_ids x ++ flat_map leaf_ids l) -> inv (leaf_ids x) c c1 -> SD c1 (flat_map leaf_ids l).
+Proof. intros ND IV. eapply SD_mono; [eapply SD_app_r; exact ND| apply IV]. Qed.
 
 (* ---------- Acl::AndNode::doMatch ---------- *)
 Lemma and_loop_cons cur start idx cid run l c :
@@ -524,9 +558,9 @@ Variables (cur : N) (cs : list node).
 Let n := Inner cur KAnd cs.
 
 Lemma and_step pre x suf pit start c r c' :
-  cs = pre ++ x :: suf -> run_ok x -> NoDup (flat_map leaf_ids (x :: suf)) -> start <= lenN pre ->
+  cs = pre ++ x :: suf -> run_ok x -> SD c (flat_map leaf_ids (x :: suf)) -> start <= lenN pre ->
   mcpre x pit c ->
-  (forall c1 r c', quiet c1 -> path c1 = [] ->
+  (forall c1 r c', quiet c1 -> path c1 = [] -> SD c1 (flat_map leaf_ids suf) ->
      and_loop cur start (lenN pre + 1) (kmap suf) c1 = (r, c') ->
      gpost (flat_map leaf_ids suf) n (forallb (eval (lv c1)) suf) c1 (r =? 1)%Z c') ->
   and_loop cur start (lenN pre) (kmap (x :: suf)) c = (r, c') ->
@@ -538,15 +572,16 @@ Proof.
   destruct (matchChild cur (lenN pre) (node_id x) (node_run scr x) c) as [b c1] eqn:EM.
   assert (NX : nthN (lenN pre) cs = Some x) by (rewrite CS; apply nthN_app_len).
   assert (DX : dropN (lenN pre + 1) cs = suf) by (rewrite CS; apply dropN_app_len).
-  destruct (matchChild_ok _ _ _ _ _ _ _ OK (NoDup_app_l _ _ ND) PRE EM) as (IV & G).
+  destruct (matchChild_ok _ _ _ _ _ _ _ OK (SD_app_l _ _ _ ND) PRE EM) as (IV & G).
   assert (FR : forall j, In j (flat_map leaf_ids suf) -> lv c1 j = lv c j) by (eapply frame_lv; eassumption).
+  assert (SD1 : SD c1 (flat_map leaf_ids suf)) by (eapply SD_after; eassumption).
   destruct G as [(S1 & S2 & S3)|(S1 & S2 & S3 & S4 & pi' & S5 & S6 & S7)].
   - (* the child completed *)
     destruct IV as (A1 & A2 & A3 & A4 & A5 & A6 & A7).
     assert (IV : inv (leaf_ids x) c c1) by (unfold inv; repeat split; auto).
     destruct b; cbn [negb] in E.
     + fold (kmap suf) in E.
-      destruct (K c1 r c' (conj S1 (conj A2 A1)) S2 E) as (IV2 & G2).
+      destruct (K c1 r c' (conj S1 (conj A2 A1)) S2 SD1 E) as (IV2 & G2).
       rewrite <- S3. cbn [andb]. rewrite (forallb_eval_ext _ _ _ FR) in G2.
       split; [eapply inv_trans; [exact IV| exact IV2| apply incl_appl, incl_refl| apply incl_appr, incl_refl]|].
       destruct G2 as [G2|(T1 & T2 & T3 & T4 & T5)]; [left; exact G2|].
@@ -566,7 +601,7 @@ Proof.
 Qed.
 
 Lemma and_fresh start : forall suf pre c r c',
-  cs = pre ++ suf -> Forall run_ok suf -> NoDup (flat_map leaf_ids suf) -> start <= lenN pre ->
+  cs = pre ++ suf -> Forall run_ok suf -> SD c (flat_map leaf_ids suf) -> start <= lenN pre ->
   quiet c -> path c = [] ->
   and_loop cur start (lenN pre) (kmap suf) c = (r, c') ->
   gpost (flat_map leaf_ids suf) n (forallb (eval (lv c)) suf) c (r =? 1)%Z c'.
@@ -577,11 +612,11 @@ Proof.
   - pose proof (Forall_inv OK) as H1. pose proof (Forall_inv_tail OK) as H2.
     assert (G := and_step pre x suf [] start c r c' CS H1 ND ST).
     cbn [evalp] in G. apply G; [split; [exact Q|]; split; [exact Logic.I| exact PT] | | exact E].
-    intros c1 r1 c1' Q1 P1 E1.
+    intros c1 r1 c1' Q1 P1 D1 E1.
     apply (IH (pre ++ [x]) c1 r1 c1').
     + rewrite <- app_assoc. exact CS.
     + assumption.
-    + cbn [flat_map] in ND. eapply NoDup_app_r; exact ND.
+    + exact D1.
     + rewrite lenN_app. cbn [lenN]. lia.
     + exact Q1.
     + exact P1.
@@ -590,14 +625,14 @@ Qed.
 
 Lemma and_node_ok : Forall run_ok cs -> run_ok n.
 Proof.
-  intros OK ND pi c r c' (Q & _ & _ & VP & PT) E. unfold n in *. cbn [leaf_ids] in *.
+  intros OK pi c r c' ND (Q & _ & _ & VP & PT) E. unfold n in *. cbn [leaf_ids] in *.
   destruct pi as [|p pit].
   - (* fresh: Acl::Node::matches *)
     cbn [startof node_run doMatch] in E. fold (kmap cs) in E.
     destruct (and_loop cur 0 0 (kmap cs) (set_lastName (Some cur) c)) as [z c1] eqn:EL.
     inversion E; subst r c'. cbn [evalp eval].
     destruct Q as (Q1 & Q2 & Q3).
-    destruct (and_fresh 0 cs [] (set_lastName (Some cur) c) z c1 eq_refl OK ND) as (IV & G).
+    destruct (and_fresh 0 cs [] (set_lastName (Some cur) c) z c1 eq_refl OK (SD_lrem c _ _ eq_refl ND)) as (IV & G).
     { cbn [lenN]. lia. }
     { unfold quiet; stg; auto. }
     { exact PT. }
@@ -615,7 +650,7 @@ Proof.
     fold (kmap (x :: dropN (p + 1) cs)) in EL.
     rewrite and_loop_skip in EL by (unfold kmap; rewrite lenN_map; lia).
     unfold kmap at 1 in EL. rewrite lenN_map in EL. cbn [N.add] in EL.
-    rewrite CS in ND. rewrite flat_map_app in ND. apply NoDup_app_r in ND.
+    rewrite CS in ND. rewrite flat_map_app in ND. apply SD_app_r in ND.
     assert (OK' : Forall run_ok (x :: dropN (p + 1) cs)).
     { rewrite CS in OK. apply Forall_app in OK. exact (proj2 OK). }
     pose proof (Forall_inv OK') as H1. pose proof (Forall_inv_tail OK') as H2.
@@ -623,11 +658,10 @@ Proof.
     rewrite LP in G, EL.
     destruct G as (IV & G).
     + split; [exact Q|]. split; assumption.
-    + intros c2 r2 c2' Q2 P2 E2.
+    + intros c2 r2 c2' Q2 P2 D2 E2.
       assert (G2 := and_fresh p (dropN (p + 1) cs) (takeN p cs ++ [x]) c2 r2 c2').
       rewrite lenN_app, LP in G2. cbn [lenN] in G2. apply G2; try assumption.
       * rewrite <- app_assoc. exact CS.
-      * cbn [flat_map] in ND. eapply NoDup_app_r; exact ND.
       * lia.
     + exact EL.
     + cbn [evalp]. rewrite EN.
@@ -686,9 +720,9 @@ Proof.
 Qed.
 
 Lemma or_step pre x suf pit start c r c' :
-  cs = pre ++ x :: suf -> run_ok x -> NoDup (flat_map leaf_ids (x :: suf)) -> start <= lenN pre ->
+  cs = pre ++ x :: suf -> run_ok x -> SD c (flat_map leaf_ids (x :: suf)) -> start <= lenN pre ->
   banned c = bans -> isb (lenN pre) = false -> mcpre x pit c ->
-  (forall c1 r c', quiet c1 -> path c1 = [] -> banned c1 = bans ->
+  (forall c1 r c', quiet c1 -> path c1 = [] -> banned c1 = bans -> SD c1 (flat_map leaf_ids suf) ->
      or_loop isbanned record cur start (lenN pre + 1) (kmap suf) c1 = (r, c') ->
      opost (flat_map leaf_ids suf) (first_from (lv c1) isb (lenN pre + 1) suf) c1 r c') ->
   or_loop isbanned record cur start (lenN pre) (kmap (x :: suf)) c = (r, c') ->
@@ -702,8 +736,9 @@ Proof.
   destruct (matchChild cur (lenN pre) (node_id x) (node_run scr x) c) as [b c1] eqn:EM.
   assert (NX : nthN (lenN pre) cs = Some x) by (rewrite CS; apply nthN_app_len).
   assert (DX : dropN (lenN pre + 1) cs = suf) by (rewrite CS; apply dropN_app_len).
-  destruct (matchChild_ok _ _ _ _ _ _ _ OK (NoDup_app_l _ _ ND) PRE EM) as (IV & G).
+  destruct (matchChild_ok _ _ _ _ _ _ _ OK (SD_app_l _ _ _ ND) PRE EM) as (IV & G).
   assert (FR : forall j, In j (flat_map leaf_ids suf) -> lv c1 j = lv c j) by (eapply frame_lv; eassumption).
+  assert (SD1 : SD c1 (flat_map leaf_ids suf)) by (eapply SD_after; eassumption).
   destruct G as [(S1 & S2 & S3)|(S1 & S2 & S3 & S4 & pi' & S5 & S6 & S7)].
   - (* the child completed *)
     destruct IV as (A1 & A2 & A3 & A4 & A5 & A6 & A7).
@@ -717,7 +752,7 @@ Proof.
       * intros C; discriminate.
     + rewrite (quiet_keep c1 S1 A2) in E. cbn [negb] in E. fold (kmap suf) in E.
       assert (BN1 : banned c1 = bans) by congruence.
-      destruct (K c1 r c' (conj S1 (conj A2 A1)) S2 BN1 E) as (IV2 & G2).
+      destruct (K c1 r c' (conj S1 (conj A2 A1)) S2 BN1 SD1 E) as (IV2 & G2).
       rewrite (first_from_ext _ _ _ _ _ FR) in G2.
       split; [eapply inv_trans; [exact IV| exact IV2| apply incl_appl, incl_refl| apply incl_appr, incl_refl]|].
       destruct G2 as [G2|(T1 & T2 & T3 & T4 & T5)]; [left; exact G2|].
@@ -734,7 +769,7 @@ Proof.
 Qed.
 
 Lemma or_fresh start : forall suf pre c r c',
-  cs = pre ++ suf -> Forall run_ok suf -> NoDup (flat_map leaf_ids suf) -> start <= lenN pre ->
+  cs = pre ++ suf -> Forall run_ok suf -> SD c (flat_map leaf_ids suf) -> start <= lenN pre ->
   quiet c -> path c = [] -> banned c = bans ->
   or_loop isbanned record cur start (lenN pre) (kmap suf) c = (r, c') ->
   opost (flat_map leaf_ids suf) (first_from (lv c) isb (lenN pre) suf) c r c'.
@@ -745,28 +780,28 @@ Proof.
     split; [exact Q1|]. split; [exact PT|]. split; [reflexivity|]. intros _ q C; discriminate.
   - pose proof (Forall_inv OK) as H1. pose proof (Forall_inv_tail OK) as H2.
     assert (REC : forall c1 r1 c1', quiet c1 -> path c1 = [] -> banned c1 = bans ->
+              SD c1 (flat_map leaf_ids suf) ->
               or_loop isbanned record cur start (lenN pre + 1) (kmap suf) c1 = (r1, c1') ->
               opost (flat_map leaf_ids suf) (first_from (lv c1) isb (lenN pre + 1) suf) c1 r1 c1').
-    { intros c1 r1 c1' Q1 P1 B1 E1.
+    { intros c1 r1 c1' Q1 P1 B1 D1 E1.
       assert (G := IH (pre ++ [x]) c1 r1 c1'). rewrite lenN_app in G. cbn [lenN] in G.
       replace (lenN pre + N.succ 0) with (lenN pre + 1) in G by lia.
       apply G; try assumption.
       - rewrite <- app_assoc. exact CS.
-      - cbn [flat_map] in ND. eapply NoDup_app_r; exact ND.
       - lia. }
     cbn [first_from]. destruct (isb (lenN pre)) eqn:NB; cbn [negb andb].
     + (* banned rule: skipped *)
       cbn [kmap map] in E. rewrite or_loop_cons in E.
       replace (lenN pre <? start) with false in E by (symmetry; apply N.ltb_ge; lia).
       rewrite (HB c _ BN), NB in E. fold (kmap suf) in E.
-      eapply opost_weaken; [apply REC; eassumption|]. cbn [flat_map]. apply incl_appr, incl_refl.
+      eapply opost_weaken; [apply REC; try eassumption; cbn [flat_map] in ND; eapply SD_app_r; exact ND|]. cbn [flat_map]. apply incl_appr, incl_refl.
     + assert (G := or_step pre x suf [] start c r c' CS H1 ND ST BN NB).
       cbn [evalp] in G. apply G; [split; [exact Q|]; split; [exact Logic.I| exact PT] | exact REC | exact E].
 Qed.
 
 (* matching from position p along the path pit of child p *)
 Lemma or_resume p x pit c r c' :
-  nthN p cs = Some x -> Forall run_ok cs -> NoDup (flat_map leaf_ids cs) ->
+  nthN p cs = Some x -> Forall run_ok cs -> SD c (flat_map leaf_ids cs) ->
   banned c = bans -> isb p = false -> mcpre x pit c ->
   or_loop isbanned record cur p 0 (kmap cs) c = (r, c') ->
   opost (flat_map leaf_ids cs)
@@ -778,7 +813,7 @@ Proof.
   fold (kmap (x :: dropN (p + 1) cs)) in EL.
   rewrite or_loop_skip in EL by (unfold kmap; rewrite lenN_map; lia).
   unfold kmap at 1 in EL. rewrite lenN_map in EL. cbn [N.add] in EL.
-  assert (ND' := ND). rewrite CS in ND'. rewrite flat_map_app in ND'. apply NoDup_app_r in ND'.
+  assert (ND' := ND). rewrite CS in ND'. rewrite flat_map_app in ND'. apply SD_app_r in ND'.
   assert (OK' : Forall run_ok (x :: dropN (p + 1) cs)).
   { rewrite CS in OK. apply Forall_app in OK. exact (proj2 OK). }
   pose proof (Forall_inv OK') as H1. pose proof (Forall_inv_tail OK') as H2.
@@ -786,12 +821,11 @@ Proof.
   rewrite LP in G, EL.
   eapply opost_weaken.
   - apply G; [exact NB| exact PRE| | exact EL].
-    intros c2 r2 c2' Q2 P2 B2 E2.
+    intros c2 r2 c2' Q2 P2 B2 D2 E2.
     assert (G2 := or_fresh p (dropN (p + 1) cs) (takeN p cs ++ [x]) c2 r2 c2').
     rewrite lenN_app, LP in G2. cbn [lenN] in G2.
     replace (p + N.succ 0) with (p + 1) in G2 by lia. apply G2; try assumption.
     + rewrite <- app_assoc. exact CS.
-    + cbn [flat_map] in ND'. eapply NoDup_app_r; exact ND'.
     + lia.
   - rewrite CS at 2. rewrite flat_map_app. apply incl_appr, incl_refl.
 Qed.
@@ -800,7 +834,7 @@ End OrLoop.
 (* inner OrNode / Acl::AnyOf *)
 Lemma or_node_ok cur k cs : k = KOr \/ k = KAnyOf -> Forall run_ok cs -> run_ok (Inner cur k cs).
 Proof.
-  intros HK OK ND pi c r c' (Q & _ & _ & VP & PT) E. cbn [leaf_ids] in *.
+  intros HK OK pi c r c' ND (Q & _ & _ & VP & PT) E. cbn [leaf_ids] in *.
   set (isbanned := fun (_ : st) (_ : N) => false) in *.
   assert (HB : forall (c0 : st) (q : N), banned c0 = banned c -> isbanned c0 q = (fun _ : N => false) q) by reflexivity.
   assert (DM : forall s l c0, doMatch k cur s l c0 = or_loop isbanned false cur s 0 l c0)
@@ -820,7 +854,7 @@ Proof.
     destruct (or_loop isbanned false cur 0 0 (kmap cs) (set_lastName (Some cur) c)) as [z c1] eqn:EL.
     inversion E; subst r c'. destruct Q as (Q1 & Q2 & Q3).
     assert (G := or_fresh cur cs isbanned false (fun _ => false) (banned c) HB 0 cs []
-                   (set_lastName (Some cur) c) z c1 eq_refl OK ND).
+                   (set_lastName (Some cur) c) z c1 eq_refl OK (SD_lrem c _ _ eq_refl ND)).
     cbn [lenN] in G.
     assert (G' : opost cur cs false (fun _ => false) (flat_map leaf_ids cs)
                    (first_from (lv c) (fun _ => false) 0 cs) c z c1).
@@ -843,7 +877,7 @@ Qed.
 
 (* ---------- Acl::NotNode::doMatch and Acl::AllOf::doMatch: one child at nodes.begin() ---------- *)
 Lemma single_step cur k x rest pit c z c' :
-  k = KNot \/ k = KAllOf -> run_ok x -> NoDup (leaf_ids x) -> mcpre x pit c ->
+  k = KNot \/ k = KAllOf -> run_ok x -> SD c (leaf_ids x) -> mcpre x pit c ->
   doMatch k cur 0 (kmap (x :: rest)) c = (z, c') ->
   gpost (leaf_ids x) (Inner cur k (x :: rest))
         (match k with KNot => negb (evalp (lv c) pit x) | _ => evalp (lv c) pit x end) c (z =? 1)%Z c'.
@@ -876,7 +910,7 @@ Qed.
 Lemma single_node_ok cur k cs :
   k = KNot \/ k = KAllOf -> (k = KNot -> cs <> []) -> Forall run_ok cs -> run_ok (Inner cur k cs).
 Proof.
-  intros HK NE OK ND pi c r c' (Q & _ & _ & VP & PT) E. cbn [leaf_ids] in *.
+  intros HK NE OK pi c r c' ND (Q & _ & _ & VP & PT) E. cbn [leaf_ids] in *.
   destruct cs as [|x rest].
   { (* an all-of without lines matches *)
     destruct HK as [->| ->]; [exfalso; apply NE; reflexivity|].
@@ -884,7 +918,7 @@ Proof.
     cbn in E. inversion E; subst r c'. destruct Q as (Q1 & Q2 & Q3).
     split; [unfold inv; stg; repeat split; auto|]. left. stg. auto. }
   pose proof (Forall_inv OK) as OKx. cbn [flat_map] in ND.
-  assert (NDx := NoDup_app_l _ _ ND).
+  assert (NDx := SD_app_l _ _ _ ND).
   assert (WK : forall V c0 z c1, inv (leaf_ids x) c c0 -> lv c0 = lv c -> 
              gpost (leaf_ids x) (Inner cur k (x :: rest)) V c0 z c1 ->
              gpost (flat_map leaf_ids (x :: rest)) (Inner cur k (x :: rest)) V c z c1).
@@ -898,7 +932,7 @@ Proof.
   - cbn [startof node_run] in E. fold (kmap (x :: rest)) in E.
     destruct (doMatch k cur 0 (kmap (x :: rest)) (set_lastName (Some cur) c)) as [z c1] eqn:ED.
     inversion E; subst r c'.
-    assert (G := single_step cur k x rest [] (set_lastName (Some cur) c) z c1 HK OKx NDx).
+    assert (G := single_step cur k x rest [] (set_lastName (Some cur) c) z c1 HK OKx (SD_lrem c _ _ eq_refl NDx)).
     cbn [evalp] in G.
     replace (evalp (lv c) [] (Inner cur k (x :: rest)))
       with (match k with KNot => negb (eval (lv c) x) | _ => eval (lv c) x end)
@@ -962,7 +996,6 @@ Qed.
 Section Root.
 Variables (t : tree) (bans : list answer).
 Hypothesis WF : forallb wf_node (rules t) = true.
-Hypothesis ND : NoDup (tree_leaf_ids t).
 Hypothesis EX : explicit_actions t = true.
 Let rb := rule_banned t bans.
 Let ids := tree_leaf_ids t.
@@ -1022,16 +1055,16 @@ Proof.
 Qed.
 
 Lemma matchAndFinish_fresh c :
-  quiet c -> path c = [] -> banned c = bans ->
+  SD c (tree_leaf_ids t) -> quiet c -> path c = [] -> banned c = bans ->
   mfpost (first_from (lv c) rb 0 (rules t)) c (matchAndFinish scr t c).
 Proof.
-  intros Q PT BN. unfold matchAndFinish. rewrite PT. unfold tree_run. fold (kmap (rules t)).
+  intros ND Q PT BN. unfold matchAndFinish. rewrite PT. unfold tree_run. fold (kmap (rules t)).
   destruct (or_loop (tree_banned t) true (tid t) 0 0 (kmap (rules t))
               (set_lastMatch None (set_lastName (Some (tid t)) c))) as [z c1] eqn:EL.
   set (c0 := set_lastMatch None (set_lastName (Some (tid t)) c)) in *.
   destruct Q as (Q1 & Q2 & Q3).
   assert (G := or_fresh (tid t) (rules t) (tree_banned t) true rb bans tree_banned_rb 0 (rules t) [] c0 z c1
-                 eq_refl rules_ok ND).
+                 eq_refl rules_ok (SD_lrem c c0 _ eq_refl ND)).
   cbn [lenN] in G.
   assert (G' : opost (tid t) (rules t) true rb ids (first_from (lv c0) rb 0 (rules t)) c0 z c1).
   { apply G; [lia| unfold quiet, c0; stg; auto| exact PT| exact BN| exact EL]. }
@@ -1042,18 +1075,18 @@ Proof.
 Qed.
 
 Lemma matchAndFinish_resume V c q x pi' :
-  quiet c -> banned c = bans ->
+  SD c (tree_leaf_ids t) -> quiet c -> banned c = bans ->
   nthN q (rules t) = Some x -> rb q = false -> vpath pi' x -> path c = (tid t, q) :: crumbs pi' x ->
   (if evalp (lv c) pi' x then Some q else first_from (lv c) rb (q + 1) (dropN (q + 1) (rules t))) = V ->
   mfpost V c (matchAndFinish scr t c).
 Proof.
-  intros Q BN EN NB VP PT EV. unfold matchAndFinish. rewrite PT. cbn [fst snd]. rewrite N.eqb_refl.
+  intros ND Q BN EN NB VP PT EV. unfold matchAndFinish. rewrite PT. cbn [fst snd]. rewrite N.eqb_refl.
   unfold tree_run. fold (kmap (rules t)).
   set (c0 := set_lastMatch None (set_path (crumbs pi' x) c)).
   destruct (or_loop (tree_banned t) true (tid t) q 0 (kmap (rules t)) c0) as [z c1] eqn:EL.
   destruct Q as (Q1 & Q2 & Q3).
   assert (G := or_resume (tid t) (rules t) (tree_banned t) true rb bans tree_banned_rb q x pi' c0 z c1
-                 EN rules_ok ND BN NB).
+                 EN rules_ok (SD_lrem c c0 _ eq_refl ND) BN NB).
   assert (G' : opost (tid t) (rules t) true rb ids V c0 z c1).
   { rewrite <- EV. apply G; [|exact EL]. split; [unfold quiet, c0; stg; auto|]. split; [exact VP| reflexivity]. }
   assert (BD : forall q0, V = Some q0 -> q0 < lenN (rules t)).
@@ -1072,7 +1105,6 @@ End Root.
 Section Top.
 Variables (t : tree) (bans : list answer).
 Hypothesis WF : forallb wf_node (rules t) = true.
-Hypothesis ND : NoDup (tree_leaf_ids t).
 Hypothesis EX : explicit_actions t = true.
 Let rb := rule_banned t bans.
 Let ids := tree_leaf_ids t.
@@ -1081,7 +1113,7 @@ Definition answered (V : option N) (c : st) : Prop :=
   err c = false /\ exists a, cbk c = Some a /\ (acode a, akind a, aimplicit a) = decide_V MNonBlocking t V.
 
 Definition suspended (V : option N) (c : st) : Prop :=
-  err c = false /\ cbk c = None /\ banned c = bans /\ susp_core t bans V c.
+  err c = false /\ cbk c = None /\ banned c = bans /\ SD c ids /\ susp_core t bans V c.
 
 Lemma opposite_eq c : match c with Denied => Allowed | Allowed => Denied | _ => Dunno end = opposite c.
 Proof. destruct c; reflexivity. Qed.
@@ -1117,11 +1149,11 @@ Qed.
 
 (* after matchAndFinish: completeNonBlocking, or stay suspended *)
 Lemma complete_ok V c c' :
-  mfpost t bans V c c' -> cbk c = None -> banned c = bans ->
+  SD c ids -> mfpost t bans V c c' -> cbk c = None -> banned c = bans ->
   (asyncInProgress c' = false /\ answered V (completeNonBlocking t c'))
   \/ (asyncInProgress c' = true /\ suspended V c').
 Proof.
-  intros (M1 & M2 & M3 & M4 & M5 & M6) CB BN.
+  intros SDc (M1 & M2 & M3 & M4 & M5 & M6) CB BN.
   destruct M6 as [(S1 & S2 & q & S3 & S4)|[(S1 & S2 & S3)|S]].
   - left. unfold asyncInProgress. rewrite S1. split; [reflexivity|].
     rewrite (complete_finished c' S1 S2).
@@ -1132,21 +1164,23 @@ Proof.
     eexists. split; [reflexivity|]. cbn [acode akind aimplicit]. subst V. cbn [decide_V].
     unfold lastAction. reflexivity.
   - right. destruct S as (S1 & S'). unfold asyncInProgress. rewrite S1. split; [reflexivity|].
-    unfold suspended. split; [exact M2|]. split; [congruence|]. split; [congruence|]. exact (conj S1 S').
+    unfold suspended. split; [exact M2|]. split; [congruence|]. split; [congruence|].
+    split; [eapply SD_mono; [exact SDc| exact M1]|]. exact (conj S1 S').
 Qed.
 
 Lemma nonBlockingCheck_ok c0 :
-  stg c0 = SNone -> err c0 = false -> path c0 = [] -> cbk c0 = None -> banned c0 = bans ->
+  SD c0 ids -> stg c0 = SNone -> err c0 = false -> path c0 = [] -> cbk c0 = None -> banned c0 = bans ->
   let V := first_from (fun i => lval_k true (retry (scr i)) (truth (scr i)) 0 (lrem c0 i)) rb 0 (rules t) in
   let c' := nonBlockingCheck scr t c0 in
   (answered V c' \/ suspended V c') /\ (forall j, (length (lrem c' j) <= length (lrem c0 j))%nat).
 Proof.
-  intros S0 E0 P0 C0 B0 V c'. unfold c', nonBlockingCheck.
+  intros SD0 S0 E0 P0 C0 B0 V c'. unfold c', nonBlockingCheck.
   set (c1 := set_asyncCaller true (preCheck c0)).
-  assert (M := matchAndFinish_fresh t bans WF ND EX c1).
+  assert (SD1 : SD c1 ids) by (eapply SD_lrem; [|exact SD0]; reflexivity).
+  assert (M := matchAndFinish_fresh t bans WF EX c1 SD1).
   assert (M' : mfpost t bans V c1 (matchAndFinish scr t c1)).
   { apply M; unfold quiet, c1, preCheck; stg; auto. }
-  destruct (complete_ok V c1 _ M') as [(A & B)|(A & B)]; try (unfold c1, preCheck; stg; assumption).
+  destruct (complete_ok V c1 _ SD1 M') as [(A & B)|(A & B)]; try (unfold c1, preCheck; stg; assumption).
   - rewrite A. split; [left; exact B|].
     intros j. destruct M' as (M1 & _). specialize (M1 j). rewrite lrem_complete. exact M1.
   - rewrite A. split; [right; exact B|]. destruct M' as (M1 & _). exact M1.
@@ -1166,7 +1200,7 @@ Lemma resume_ok V c :
     let c' := resumeNonBlockingCheck scr t (deliver j c) in
     (answered V c' \/ suspended V c') /\ (total ids c' < total ids c)%nat.
 Proof.
-  intros (E0 & C0 & B0 & S1 & S2 & S3 & (j & rest & P1 & P2 & P3) & q & x & pi' & T1 & T2 & T3 & T4 & T5).
+  intros (E0 & C0 & B0 & SDc & S1 & S2 & S3 & (j & rest & P1 & P2 & P3) & q & x & pi' & T1 & T2 & T3 & T4 & T5).
   exists j. split; [exact P1|]. intros c'. unfold c', resumeNonBlockingCheck.
   assert (D1 : stg (deliver j c) = SRunning) by exact S1.
   rewrite D1. cbn [stage_eqb]. 
@@ -1175,7 +1209,11 @@ Proof.
   rewrite P2'.
   assert (F2 : finished c2 = false) by exact S2. rewrite F2.
   assert (LV := lv_deliver c j rest S3 P3). fold c2 in LV.
-  assert (M := matchAndFinish_resume t bans WF ND EX V c2 q x pi').
+  assert (LE2 : forall i, (length (lrem c2 i) <= length (lrem c i))%nat).
+  { intros i. unfold c2, deliver; stg. unfold upd. destruct (i =? j) eqn:E; [|lia].
+    apply N.eqb_eq in E. subst i. rewrite P3. cbn [tl length]. lia. }
+  assert (SD2 : SD c2 ids) by (eapply SD_mono; [exact SDc| exact LE2]).
+  assert (M := matchAndFinish_resume t bans WF EX V c2 q x pi' SD2).
   assert (M' : mfpost t bans V c2 (matchAndFinish scr t c2)).
   { apply M; try assumption.
     - unfold quiet, c2, deliver; stg; auto.
@@ -1187,12 +1225,12 @@ Proof.
     - intros i. unfold c2, deliver; stg. unfold upd. destruct (i =? j) eqn:E; [|lia].
       apply N.eqb_eq in E. subst i. rewrite P3. cbn [tl length]. lia.
     - unfold c2, deliver; stg. rewrite upd_same, P3. cbn [tl length]. lia. }
-  destruct (complete_ok V c2 _ M') as [(A & B)|(A & B)]; try assumption.
+  destruct (complete_ok V c2 _ SD2 M') as [(A & B)|(A & B)]; try assumption.
   - rewrite A. split; [left; exact B|].
     unfold total. rewrite lrem_complete. exact LT.
-  - rewrite A. destruct B as (B1 & B2 & B3 & B4 & B5 & B6 & B7 & q' & x' & pi2 & B8 & B9 & B10 & B11 & B12).
+  - rewrite A. destruct B as (B1 & B2 & B3 & BSD & B4 & B5 & B6 & B7 & q' & x' & pi2 & B8 & B9 & B10 & B11 & B12).
     rewrite B11. split; [right|exact LT].
-    unfold suspended, susp_core. split; [exact B1|]. split; [exact B2|]. split; [exact B3|].
+    unfold suspended, susp_core. split; [exact B1|]. split; [exact B2|]. split; [exact B3|]. split; [exact BSD|].
     split; [exact B4|]. split; [exact B5|]. split; [exact B6|]. split; [exact B7|].
     exists q', x', pi2. auto.
 Qed.
@@ -1214,15 +1252,16 @@ Qed.
 
 (* fastCheck() and fastCheck(list): goAsync() is refused, so matching never suspends *)
 Lemma fast_ok (m : mode) c0 :
-  m <> MNonBlocking ->
+  m <> MNonBlocking -> SD c0 ids ->
   stg c0 = SNone -> err c0 = false -> path c0 = [] -> banned c0 = bans ->
   let V := first_from (fun i => lval_k false (retry (scr i)) (truth (scr i)) 0 (lrem c0 i)) rb 0 (rules t) in
   let c' := match m with MFastList => fastCheckList scr t c0 | _ => fastCheck scr t c0 end in
   err c' = false /\ (acode (ans c'), akind (ans c'), aimplicit (ans c')) = decide_V m t V.
 Proof.
-  intros NM S0 E0 P0 B0 V c'.
+  intros NM SD0 S0 E0 P0 B0 V c'.
   set (c1 := set_asyncCaller false (preCheck c0)).
-  assert (M := matchAndFinish_fresh t bans WF ND EX c1).
+  assert (SD1 : SD c1 ids) by (eapply SD_lrem; [|exact SD0]; reflexivity).
+  assert (M := matchAndFinish_fresh t bans WF EX c1 SD1).
   assert (M' : mfpost t bans V c1 (matchAndFinish scr t c1)).
   { apply M; unfold quiet, c1, preCheck; stg; auto. }
   assert (EQ : c' = let c2 := matchAndFinish scr t c1 in
@@ -1254,20 +1293,26 @@ Proof. reflexivity. Qed.
 End Proofs.
 
 (* ---------- the theorems ---------- *)
+Lemma NoDup_shared_leaves_sync t tbl : NoDup (tree_leaf_ids t) -> shared_leaves_sync t tbl.
+Proof.
+  intros ND l1 l2 j E H1 H2.
+  exact (NoDup_SD (init_st [] (fun i => attempts (lookup_script tbl i))) _ ND l1 l2 j E H1 H2).
+Qed.
+
 
 Theorem nonblocking_first_match t bans tbl :
   tree_ok t = true -> forallb wf_node (rules t) = true -> explicit_actions t = true ->
-  NoDup (tree_leaf_ids t) ->
+  shared_leaves_sync t tbl ->
   exists c a, run_check MNonBlocking t bans tbl = Some c /\ err c = false /\ cbk c = Some a /\
     result a = decide MNonBlocking (fun i => leaf_value true (lookup_script tbl i)) t bans.
 Proof.
   intros TK WF EX ND. unfold run_check. rewrite TK. cbn [negb].
   set (scr := lookup_script tbl). set (c0 := init_st bans (fun i => attempts (scr i))).
-  destruct (nonBlockingCheck_ok scr t bans WF ND EX c0) as (G & LE); try reflexivity.
+  destruct (nonBlockingCheck_ok scr t bans WF EX c0 ND) as (G & LE); try reflexivity.
   cbn zeta in G, LE.
   set (V := first_from (fun i => lval_k true (retry (scr i)) (truth (scr i)) 0 (lrem c0 i))
               (rule_banned t bans) 0 (rules t)) in *.
-  destruct (nb_loop_ok scr t bans WF ND EX V (S (tree_attempts scr t)) (nonBlockingCheck scr t c0))
+  destruct (nb_loop_ok scr t bans WF EX V (S (tree_attempts scr t)) (nonBlockingCheck scr t c0))
     as (c' & RUN & A1 & a & A2 & A3).
   { destruct G as [G|G]; [left; exact G| right; split; [exact G|]].
     pose proof (total_le (tree_leaf_ids t) c0 _ LE) as TL.
@@ -1280,13 +1325,13 @@ Qed.
 Theorem fast_first_match m t bans tbl :
   m <> MNonBlocking ->
   tree_ok t = true -> forallb wf_node (rules t) = true -> explicit_actions t = true ->
-  NoDup (tree_leaf_ids t) ->
+  shared_leaves_sync t tbl ->
   exists c, run_check m t bans tbl = Some c /\ err c = false /\
     result (ans c) = decide m (fun i => leaf_value false (lookup_script tbl i)) t bans.
 Proof.
   intros NM TK WF EX ND. unfold run_check. rewrite TK. cbn [negb].
   set (scr := lookup_script tbl). set (c0 := init_st bans (fun i => attempts (scr i))).
-  destruct (fast_ok scr t bans WF ND EX m c0 NM) as (G1 & G2); try reflexivity.
+  destruct (fast_ok scr t bans WF EX m c0 NM ND) as (G1 & G2); try reflexivity.
   cbn zeta in G1, G2. rewrite decide_eq.
   destruct m; [congruence| |]; eexists; (split; [reflexivity|]); (split; [exact G1| exact G2]).
 Qed.
@@ -1302,7 +1347,7 @@ Qed.
 (* every lookup really goes asynchronous (any number of times): the leaves are worth their truth values *)
 Theorem nonblocking_async_invisible t bans tbl :
   tree_ok t = true -> forallb wf_node (rules t) = true -> explicit_actions t = true ->
-  NoDup (tree_leaf_ids t) ->
+  shared_leaves_sync t tbl ->
   (forall i, In i (tree_leaf_ids t) -> forallb is_real (attempts (lookup_script tbl i)) = true) ->
   exists c a, run_check MNonBlocking t bans tbl = Some c /\ err c = false /\ cbk c = Some a /\
     result a = decide MNonBlocking (fun i => truth (lookup_script tbl i)) t bans.
@@ -1317,7 +1362,7 @@ Qed.
 (* the decision does not depend on how often (or whether) the leaves go asynchronous *)
 Theorem schedule_independent t bans tbl tbl' :
   tree_ok t = true -> forallb wf_node (rules t) = true -> explicit_actions t = true ->
-  NoDup (tree_leaf_ids t) ->
+  shared_leaves_sync t tbl -> shared_leaves_sync t tbl' ->
   (forall i, In i (tree_leaf_ids t) ->
      truth (lookup_script tbl i) = truth (lookup_script tbl' i) /\
      forallb is_real (attempts (lookup_script tbl i)) = true /\
@@ -1325,10 +1370,10 @@ Theorem schedule_independent t bans tbl tbl' :
   exists c a c' a', run_check MNonBlocking t bans tbl = Some c /\ cbk c = Some a /\
     run_check MNonBlocking t bans tbl' = Some c' /\ cbk c' = Some a' /\ result a = result a'.
 Proof.
-  intros TK WF EX ND H.
+  intros TK WF EX ND ND' H.
   destruct (nonblocking_async_invisible t bans tbl TK WF EX ND) as (c & a & R1 & _ & R3 & R4).
   { intros i Hi. apply (H i Hi). }
-  destruct (nonblocking_async_invisible t bans tbl' TK WF EX ND) as (c' & a' & R1' & _ & R3' & R4').
+  destruct (nonblocking_async_invisible t bans tbl' TK WF EX ND') as (c' & a' & R1' & _ & R3' & R4').
   { intros i Hi. apply (H i Hi). }
   exists c, a, c', a'. repeat (split; [assumption|]). rewrite R4, R4'. unfold decide.
   erewrite first_from_ext; [reflexivity|]. intros j Hj. apply (H j Hj).
@@ -1338,7 +1383,7 @@ Qed.
 Theorem fast_sync_truth m t bans tbl :
   m <> MNonBlocking ->
   tree_ok t = true -> forallb wf_node (rules t) = true -> explicit_actions t = true ->
-  NoDup (tree_leaf_ids t) ->
+  shared_leaves_sync t tbl ->
   (forall i, In i (tree_leaf_ids t) -> attempts (lookup_script tbl i) = []) ->
   exists c, run_check m t bans tbl = Some c /\ err c = false /\
     result (ans c) = decide m (fun i => truth (lookup_script tbl i)) t bans.
@@ -1412,7 +1457,18 @@ Theorem empty_list_is_dunno i bans tbl :
   exists c a, run_check MNonBlocking (mkTree i [] []) bans tbl = Some c /\ err c = false /\ cbk c = Some a /\
     result a = (Dunno, 0, true).
 Proof.
-  destruct (nonblocking_first_match (mkTree i [] []) bans tbl eq_refl eq_refl eq_refl (NoDup_nil N))
+  destruct (nonblocking_first_match (mkTree i [] []) bans tbl eq_refl eq_refl eq_refl (NoDup_shared_leaves_sync (mkTree i [] []) tbl (NoDup_nil N)))
     as (c & a & H1 & H2 & H3 & H4).
   exists c, a. auto.
+Qed.
+
+Lemma shared_leaves_check t tbl : shared_leaves_sync_b t tbl = true -> shared_leaves_sync t tbl.
+Proof.
+  unfold shared_leaves_sync_b, shared_leaves_sync. intros H l1 l2 j E H1 H2.
+  rewrite forallb_forall in H.
+  assert (IN : In j (tree_leaf_ids t)) by (rewrite E; apply in_or_app; left; exact H1).
+  specialize (H j IN). apply orb_prop in H. destruct H as [H|H].
+  - exfalso. apply Nat.leb_le in H. rewrite E, count_occ_app in H.
+    apply (count_occ_In N.eq_dec) in H1. apply (count_occ_In N.eq_dec) in H2. lia.
+  - destruct (attempts (lookup_script tbl j)); [reflexivity| discriminate].
 Qed.
